@@ -8,7 +8,7 @@ namespace EPV.Cmp
 open EPV.CmpSpec EPV.CmpFind
 
 macro "gp_simp" : tactic => `(tactic|
-  simp [pairGeneral, iterCheck, iterMatch, qnMake, categoryOK, cmpCategory, kindName, pairSpec, castThen, castUntyped, valueOp, isBoolA, isStrLike3, isStr, isQN, isUri, isInteger,
+  simp [pairGeneral, pairGeneralWith, iterCheck, iterMatch, qnMake, categoryOK, cmpCategory, kindName, pairSpec, castThen, castUntyped, valueOp, isBoolA, isStrLike3, isStr, isQN, isUri, isInteger,
      Atom.isDur, numRank, castNum, pyOp, pyBinop, subclassFirst, dunder, Atom.pyNum, numCmp, liftPy, dCmp_eq_six, isEqNe, isUA,
      sCmp, iCmp, bCmp, cmpBy_eq_six, Atom.isDT, Atom.isBin, Atom.dt, Atom.binVal, Atom.durVal, durInstanceOf,
      binOrdered, strLtS, strEqS, octLt, D.isNaN, Op.isOrd])
@@ -294,7 +294,7 @@ theorem valueOp_bin_swap (bo : Bool) (op : Op) (x y : List Nat) :
 
 theorem pairGeneral_ua_left (m : Mode) (op : Op) (s : Str) (b : Atom) (hb : b.isBin = true) :
     pairGeneral m op (.ua s) b = liftPy (pyOp m op (.ua s) b) := by
-  cases b <;> simp_all [pairGeneral, iterCheck, iterMatch, categoryOK, Atom.isBin]
+  cases b <;> simp_all [pairGeneral, pairGeneralWith, iterCheck, iterMatch, categoryOK, Atom.isBin]
 
 /-- untypedAtomic against QName, either side: XPath 3.1 casts the untyped value to a QName (in no
 namespace when unprefixed); the 2.0 parsers raise XPTY0004 (that cast is not permitted in XPath 2.0) -/
@@ -304,7 +304,7 @@ theorem pg_ua_qn (m : Mode) (op : Op) (s ns pre loc : Str)
   by_cases hm : m = .v31
   · subst hm
     revert h5
-    simp only [pairGeneral, iterCheck, iterMatch, qnMake, categoryOK, pairSpec, castThen, castUntyped, strToQName, if_true]
+    simp only [pairGeneral, pairGeneralWith, iterCheck, iterMatch, qnMake, categoryOK, pairSpec, castThen, castUntyped, strToQName, if_true]
     cases ncName s with
     | valid v =>
       intro _
@@ -313,7 +313,7 @@ theorem pg_ua_qn (m : Mode) (op : Op) (s ns pre loc : Str)
     | invalid => intro _; simp [liftPy]
     | prefixed => intro h; simp at h
     | unsupported => intro h; simp at h
-  · simp [pairGeneral, iterCheck, iterMatch, qnMake, pairSpec, hm, liftPy]
+  · simp [pairGeneral, pairGeneralWith, iterCheck, iterMatch, qnMake, pairSpec, hm, liftPy]
 
 theorem valueOp_qn_pre (bo : Bool) (op : Op) (a p b c q d : Str) :
     valueOp bo op (.qn a p b) (.qn c q d) = valueOp bo op (.qn a [] b) (.qn c [] d) := by
@@ -325,7 +325,7 @@ theorem pg_qn_ua (m : Mode) (op : Op) (s ns pre loc : Str)
   by_cases hm : m = .v31
   · subst hm
     revert h5
-    simp only [pairGeneral, iterCheck, iterMatch, qnMake, categoryOK, pairSpec, castThen, castUntyped, strToQName, if_true]
+    simp only [pairGeneral, pairGeneralWith, iterCheck, iterMatch, qnMake, categoryOK, pairSpec, castThen, castUntyped, strToQName, if_true]
     cases ncName s with
     | valid v =>
       intro _
@@ -335,7 +335,7 @@ theorem pg_qn_ua (m : Mode) (op : Op) (s ns pre loc : Str)
     | invalid => intro _; simp [liftPy]
     | prefixed => intro h; simp at h
     | unsupported => intro h; simp at h
-  · simp [pairGeneral, iterCheck, iterMatch, qnMake, pairSpec, hm, liftPy]
+  · simp [pairGeneral, pairGeneralWith, iterCheck, iterMatch, qnMake, pairSpec, hm, liftPy]
 
 /-- untypedAtomic against hexBinary / base64Binary, either side -/
 theorem pg_ua_hex (m : Mode) (op : Op) (s : Str) (y : List Nat)
@@ -352,7 +352,7 @@ theorem pg_hex_ua (m : Mode) (op : Op) (s : Str) (x : List Nat)
     (h5 : pairSpec m op (.hex x) (.ua s) ≠ .error .unsupported) :
     pairGeneral m op (.hex x) (.ua s) = pairSpec m op (.hex x) (.ua s) := by
   have : pairGeneral m op (.hex x) (.ua s) = liftPy (pyOp m op (.hex x) (.ua s)) := by
-    simp [pairGeneral, iterCheck, iterMatch, categoryOK, Atom.isDur]
+    simp [pairGeneral, pairGeneralWith, iterCheck, iterMatch, categoryOK, Atom.isDur]
   rw [this, pyOp_hex_ua]
   by_cases hw : hasInnerWs s = true
   · exact absurd (by simp [pairSpec, castUntyped, hw]) h5
@@ -383,7 +383,7 @@ theorem pg_b64_ua (m : Mode) (op : Op) (s : Str) (x : List Nat)
     (h5 : pairSpec m op (.b64 x) (.ua s) ≠ .error .unsupported) :
     pairGeneral m op (.b64 x) (.ua s) = pairSpec m op (.b64 x) (.ua s) := by
   have : pairGeneral m op (.b64 x) (.ua s) = liftPy (pyOp m op (.b64 x) (.ua s)) := by
-    simp [pairGeneral, iterCheck, iterMatch, categoryOK, Atom.isDur]
+    simp [pairGeneral, pairGeneralWith, iterCheck, iterMatch, categoryOK, Atom.isDur]
   rw [this, pyOp_b64_ua]
   rcases b64_cases s with ⟨y, h1, h2⟩ | ⟨h1, h2⟩
   · simp [h1, pairSpec, castUntyped_b64 s x, h2, (bin_protocol m op.swap y x 4).2, (valueOp_bin_swap _ op x y).2]
